@@ -20,7 +20,7 @@ import (
 	"github.com/elnosh/gonuts/cashu"
 )
 
-var crashProps = []string{"C07", "C15", "C06", "C16"}
+var crashProps = []string{"C07", "C15", "C06", "C16", "C01"}
 
 func init() {
 	register("mint-crash", crashProps,
@@ -467,6 +467,11 @@ func (e *schedEnv) verdict(cs crashCase, mode, point, verdict, what string, repl
 	c.Hist("crash-verdict", key)
 	if verdict != "ok" {
 		c.MonitorFail("C07", "C07/"+key, fmt.Sprintf("%s of %s at %s: %s", mode, cs.name, point, what), replay)
+		// a secret accepted again after it paid for a melt / was swapped is a double spend (C01: "including after a
+		// restart"): the same interruption point seen by C01 (seeded change C01-7)
+		if strings.HasPrefix(verdict, "unsafe:") && strings.Contains(verdict, "respent") {
+			c.MonitorFail("C01", "C01/"+key, fmt.Sprintf("%s of %s at %s: %s", mode, cs.name, point, what), replay)
+		}
 	}
 }
 
